@@ -111,6 +111,7 @@ func runP2Edges(args []string) error {
 			return err
 		}
 		ev := tracelog.M{"ev": "op", "op": e.Op, "g": g, "hook": viaHook, "pre": e.Pre, "prevols": e.PreVols,
+			"s": in.S, "names": in.Names, "prot": in.Prot, "vols": in.Vols,
 			"obs": tracelog.M{"nsurv": tr.NSurv, "nocc": tr.NOcc}}
 		var lio *logIO
 		if viaHook {
